@@ -428,7 +428,12 @@ class Inspector:
         self.extensions.call("on_function_node", node=node, agent=self)
 
         try:
-            signature = getsignature(node.obj)
+            if labels and "classmethod" in labels:
+                # Class methods are reached bound to their class, which hides their first parameter (`cls`):
+                # get the signature of the underlying function, like for any other method.
+                signature = getsignature(getattr(node.obj, "__func__", node.obj))
+            else:
+                signature = getsignature(node.obj)
         except Exception:  # noqa: BLE001
             # So many exceptions can be raised here:
             # AttributeError, NameError, RuntimeError, ValueError, TokenError, TypeError...
